@@ -55,6 +55,79 @@ def returns_index_array(repo: Repo, fi: FunctionInfo, depth=0) -> bool:
     return res
 
 
+INDEX_SCALAR_PRODUCERS = {"numpy.argmax", "numpy.argmin", "numpy.nanargmax", "numpy.nanargmin", "numpy.searchsorted"}
+
+
+def _index_values_expr(repo: Repo, fi: FunctionInfo, e) -> Optional[str]:
+    """expression whose ELEMENTS (or value) are positions/indices that may legitimately be 0"""
+    if isinstance(e, ast.Call):
+        d = repo.dotted_of(fi.module, e.func) or ""
+        if d in INDEX_SCALAR_PRODUCERS:
+            return d.split(".")[-1] + "(...)"
+        if isinstance(e.func, ast.Attribute) and e.func.attr in ("argmax", "argmin", "index", "find") and not d.startswith("numpy."):
+            return "." + e.func.attr + "(...)"
+        if isinstance(e.func, ast.Name) and e.func.id == "enumerate" and e.args:
+            return None
+    return _is_index_expr(repo, fi, e, {})
+
+
+def index_truthiness_in_comprehensions(repo: Repo, fi: FunctionInfo) -> List[tuple]:
+    """{.. for d, o in enumerate(<index values>) if o}  /  [.. for o in <index values> if o]  : an index used as truth value"""
+    out = []
+    for n in ast.walk(fi.node):
+        if isinstance(n, (ast.ListComp, ast.SetComp, ast.DictComp, ast.GeneratorExp)):
+            for g in n.generators:
+                it = g.iter
+                names = []
+                prod = None
+                if isinstance(it, ast.Call) and isinstance(it.func, ast.Name) and it.func.id == "enumerate" and it.args:
+                    prod = _index_values_expr(repo, fi, it.args[0])
+                    if isinstance(g.target, ast.Tuple) and len(g.target.elts) == 2 and isinstance(g.target.elts[1], ast.Name):
+                        names = [g.target.elts[1].id]
+                elif isinstance(it, ast.Call) and isinstance(it.func, ast.Name) and it.func.id == "zip":
+                    for k, a in enumerate(it.args):
+                        pr = _index_values_expr(repo, fi, a)
+                        if pr and isinstance(g.target, ast.Tuple) and k < len(g.target.elts) and isinstance(g.target.elts[k], ast.Name):
+                            prod = pr
+                            names.append(g.target.elts[k].id)
+                else:
+                    prod = _index_values_expr(repo, fi, it)
+                    if isinstance(g.target, ast.Name):
+                        names = [g.target.id]
+                if not prod or not names:
+                    continue
+                for c in g.ifs:
+                    tests = [c]
+                    if isinstance(c, ast.BoolOp):
+                        tests = list(c.values)
+                    for t in tests:
+                        if isinstance(t, ast.UnaryOp) and isinstance(t.op, ast.Not):
+                            t = t.operand
+                        if isinstance(t, ast.Name) and t.id in names:
+                            out.append((n, t.id, prod, "comprehension filter"))
+        if isinstance(n, ast.For):
+            it = n.iter
+            prod = None
+            names = []
+            if isinstance(it, ast.Call) and isinstance(it.func, ast.Name) and it.func.id == "enumerate" and it.args:
+                prod = _index_values_expr(repo, fi, it.args[0])
+                if isinstance(n.target, ast.Tuple) and len(n.target.elts) == 2 and isinstance(n.target.elts[1], ast.Name):
+                    names = [n.target.elts[1].id]
+            else:
+                prod = _index_values_expr(repo, fi, it)
+                if isinstance(n.target, ast.Name):
+                    names = [n.target.id]
+            if prod and names:
+                for m in ast.walk(n):
+                    if isinstance(m, (ast.If, ast.IfExp)):
+                        t = m.test
+                        if isinstance(t, ast.UnaryOp) and isinstance(t.op, ast.Not):
+                            t = t.operand
+                        if isinstance(t, ast.Name) and t.id in names:
+                            out.append((m, t.id, prod, "if"))
+    return out
+
+
 def boolean_uses(repo: Repo, fi: FunctionInfo) -> Tuple[List[tuple], int]:
     """-> (violations [(node, name, producer, context)], number of index-array definitions seen)"""
     _cache.clear()
